@@ -23,6 +23,7 @@ def detect_fixes(repo):
             return ""
     srv = src("srv_srv.go")
     conn = src("srv_conn.go")
+    fc = src("srv_fcall.go")
     m = re.search(r"if flushed \{\s*req\.Respond\(\)\s*(return)?", srv)
     fallthrough = bool(m and m.group(1))
     stale = bool(re.search(r"Rc\.Type\s*=\s*0", conn)) or bool(re.search(r"Rc\.Type\s*=\s*0", srv))
@@ -34,11 +35,13 @@ def detect_fixes(repo):
     boundfix = "func (fid *SrvFid) bind()" in srv
     pending = bool(re.search(r"if fid\.pending \{", srv))
     return {"FixFallthrough": fallthrough, "FixStale": stale, "FixClose": close, "FixOrder": order, "FixChain": chain,
-            "FixBound": boundfix, "FixPending": pending}
+            "FixBound": boundfix, "FixPending": pending,
+            "FixQueued": bool(re.search(r"queued\s*:?=\s*r\.next != nil", fc)),
+            "FixAppend": "p.flushnext = req.flushreq" in srv}
 
 
 BASE = dict(NReq=2, Tags={1, 2}, Fids={1}, Kinds={"Stat", "Flush"}, FixFallthrough=False, FixStale=False,
-            FixClose=False, FixOrder=False, FixChain=False, FixBound=False, FixPending=False, SharedTags=False, HasFlushOp=False, Extra=False, Late=False, PoolCap=4, Maxpend=0,
+            FixClose=False, FixOrder=False, FixChain=False, FixBound=False, FixPending=False, FixQueued=False, FixAppend=False, SharedTags=False, HasFlushOp=False, Extra=False, Late=False, PoolCap=4, Maxpend=0,
             InitFids={1}, CanClose=False, Held=set(), NoTag=0)
 
 
